@@ -16,5 +16,13 @@ func init() {
 		skelTarget{Name: "conversion.WebhookHandler.handleReviewRequest", File: "pkg/webhook/conversion/handler.go", Recv: "WebhookHandler", Func: "handleReviewRequest",
 			Fields: []string{"FailedMessage", "Objects", "ConvertedObjects"},
 			Calls:  []string{"EventHandlerFn", "len", "New", "Errorf"}},
+		// sixth wave: the glue modelled in Model/ConversionGlue.lean (the chain is fetched per binding,
+		// inside the range over the bindings) and the order of the cases of MapV1 (conversion before group)
+		skelTarget{Name: "Manager.UpdateConversionChains", File: "pkg/hook/hook_manager.go", Recv: "Manager", Func: "UpdateConversionChains",
+			Fields: []string{"KubernetesConversion", "CrdName", "Rules", "conversionChains"},
+			Calls:  []string{"GetHooksInOrder", "GetHook", "Get", "Put"}},
+		skelTarget{Name: "BindingContext.MapV1.cases", File: "pkg/hook/binding_context/binding_context.go", Recv: "BindingContext", Func: "MapV1",
+			Fields: []string{"BindingType", "Group", "FromVersion", "ToVersion", "ConversionReview", "AdmissionReview"},
+			Calls:  []string{}},
 	)
 }
